@@ -318,6 +318,34 @@ theorem head_qn_monotone {T : Nat → Option Block} (vt : ValidTree T) (fuel : N
     · omega
     · omega
 
+/-! ## the sync fork switch (`blockChainFork.triggerOnChain`), the second block-adding path -/
+
+/-- **fork_switch_inv.** The fork switch — `removeFromCommonAncestor` called directly, then the fork's blocks
+    through `tryAddBlockOnChain` one by one, stopping at the first that is not added — preserves the whole
+    invariant (chain, indexes, caches, pool clause) for ANY common ancestor and ANY list of tree blocks,
+    whatever `triggerOnChain`'s own checks decided; and a death in front of any of its writes leaves a
+    recoverable disk (`Post` = alive with `Inv`, or dead on a `Rec` disk). It is a composition of the two
+    steps the other theorems cover. -/
+theorem fork_switch_inv {T : Nat → Option Block} (vt : ValidTree T) (fuel : Nat) (s : St) (anc : Block) (bs : List Block)
+    (c : List Block) (inv : Inv T s.disk s.mem c) (hT : ∀ b ∈ bs, T b.hash = some b) :
+    (Safe s → ∃ c', Inv T (forkSwitch fuel s anc bs).disk (forkSwitch fuel s anc bs).mem c') ∧
+    (∀ k, ∃ c', Inv T (restart ((forkSwitch fuel (s.arm (some k)) anc bs).arm none)).1.disk
+        (restart ((forkSwitch fuel (s.arm (some k)) anc bs).arm none)).1.mem c') := by
+  constructor
+  · intro hs
+    have hsafe : Safe (forkSwitch fuel s anc bs) := safe_forkAdd fuel bs _ (safe_removeFrom anc s hs)
+    exact Out.of_alive (forkSwitch_post vt fuel s anc bs c hs.1 inv hT) hsafe.1
+  · intro k
+    have hp := forkSwitch_post vt fuel (s.arm (some k)) anc bs c rfl inv hT
+    have hrec : ∃ c', RecTo (forkSwitch fuel (s.arm (some k)) anc bs).disk c' ∧ ∀ z ∈ c', T z.hash = some z := by
+      rcases hp with ⟨_, c', inv'⟩ | ⟨_, r⟩
+      · exact ⟨c', Or.inl inv'.chain, inv'.fromT⟩
+      · exact r
+    obtain ⟨c', hr, hT'⟩ := hrec
+    have h := restart_spec (T := T) (s := (forkSwitch fuel (s.arm (some k)) anc bs).arm none) rfl hr hT'
+    have hsafe := safe_restart ((forkSwitch fuel (s.arm (some k)) anc bs).arm none) (arm_safe _)
+    exact ⟨c', Out.of_alive h.1 hsafe.1⟩
+
 /-! ## transactions of removed and added blocks -/
 
 /-- **reorg_pool, end to end.** After a crash-free `AddBlockOnChain` of any block of a valid tree — whatever
@@ -460,5 +488,14 @@ example : ¬ WeightGE [wL2, wL1, wA] [wC 500, wA] := by
           · revert e1; decide
       · revert e2
         rcases hf' with rfl | rfl <;> decide
+
+/-- What the fork switch does NOT give: the weight clause. With no (addable) fork block the head simply moves
+    back to the common ancestor. `triggerOnChain` guards this with its own comparison of the fork tip's QN and
+    by only switching to forks whose blocks it holds; a fork block that fails `tryAddBlockOnChain` midway
+    leaves the head below the old one. This path is outside the property's quantifier (blocks delivered through
+    the add-block entry point) and is not exercised by the correspondence. -/
+theorem fork_switch_can_lower_head :
+    ∃ (s : St) (anc : Block), Safe s ∧ (forkSwitch 4 s anc []).mem.latest.totalQN < s.mem.latest.totalQN :=
+  ⟨insertB (insertA (genesisState exG) exB1) exB1, exG, ⟨rfl, rfl⟩, by decide⟩
 
 end Rangers.Props.C05
